@@ -6,6 +6,7 @@ use serde_json::json;
 use crate::adapter::{compile, execute, panic_signature, Compiled, ExecOutcome, GraphAdapter};
 use crate::model::Ty;
 use crate::qast::{EKind, QFilter, QScope, Query, Rhs, Sel};
+use trustfall_core::ir::FieldValue;
 use crate::rng::Rng;
 use crate::val::{Op, ALL_OPS};
 use crate::case::{shrink, witness_from_case, Case, Report};
@@ -137,7 +138,72 @@ pub fn confuse(q: &Query, rng: &mut Rng) -> Option<Query> {
         }
         i += 1;
     });
+    // literal-kind confusion of explicit edge arguments (an integer literal where the schema declares Float,
+    // a scalar where it declares a list, ...): almost always rejected; whatever is accepted reaches the adapter
+    if rng.chance(35) {
+        fn confuse_value(v: &FieldValue, r: u64) -> FieldValue {
+            match (v, r % 3) {
+                (FieldValue::Float64(x), _) => FieldValue::Int64(*x as i64),
+                (FieldValue::Int64(x), 0) => FieldValue::Float64(*x as f64),
+                (FieldValue::Int64(x), 1) => FieldValue::String(x.to_string().into()),
+                (FieldValue::Uint64(x), _) => FieldValue::Float64(*x as f64),
+                (FieldValue::String(_), _) => FieldValue::Int64(1),
+                (FieldValue::Boolean(b), _) => FieldValue::Int64(*b as i64),
+                (FieldValue::List(l), 0) if !l.is_empty() => l[0].clone(),
+                (FieldValue::Null, _) => FieldValue::Int64(0),
+                (other, _) => FieldValue::List(vec![other.clone()].into()),
+            }
+        }
+        fn for_each_args(s: &mut QScope, f: &mut dyn FnMut(&mut Vec<(String, FieldValue)>)) {
+            for sel in s.sels.iter_mut() {
+                if let Sel::Edge(e) = sel {
+                    f(&mut e.args);
+                    for_each_args(&mut e.child, f);
+                }
+            }
+        }
+        let mut sites = 0usize;
+        for_each_args(&mut q.root, &mut |a| sites += a.len());
+        sites += q.entry_args.len();
+        if sites > 0 {
+            let pick = rng.below(sites);
+            let r = rng.next_u64();
+            let mut k = 0usize;
+            let mut hit = |args: &mut Vec<(String, FieldValue)>| {
+                for (_, v) in args.iter_mut() {
+                    if k == pick {
+                        *v = confuse_value(v, r);
+                    }
+                    k += 1;
+                }
+            };
+            hit(&mut q.entry_args);
+            for_each_args(&mut q.root, &mut hit);
+        }
+    }
     Some(q)
+}
+
+/// confuse + compile with the real frontend + arguments fitting the types the compiled query declares
+pub fn confused_compiled(ctx: &CaseCtx, rng: &mut Rng) -> Option<(Query, Arc<trustfall_core::ir::IndexedQuery>, crate::qast::Args)> {
+    let q2 = confuse(&ctx.g.query, rng)?;
+    if q2 == ctx.g.query {
+        return None;
+    }
+    let compiled = match compile(&ctx.schema, &q2.render()) {
+        Compiled::Ok(c) => c,
+        _ => return None,
+    };
+    let mut args = crate::qast::Args::new();
+    for (name, ty) in compiled.ir_query.variables.iter() {
+        let t = Ty::parse(&ty.to_string())?;
+        let v = match ctx.args.get(name.as_ref()) {
+            Some(v) if crate::val::fits(&t, &crate::val::Val::from_fv(v)) && rng.chance(70) => v.clone(),
+            _ => crate::qgen::value_fitting(rng, &t),
+        };
+        args.insert(name.to_string(), v);
+    }
+    Some((q2, compiled, args))
 }
 
 fn confused_case(report: &mut Report, ctx: &CaseCtx, rng: &mut Rng) {
